@@ -351,6 +351,17 @@ def replay_models():
                    'TransactionContext(description)._fn_%s(*args) on the solver counterexample' % fn)
 
 
+def reference_examples_suite():
+    """every rule expression printed by `tally reference` (after match: / let: / field:) is an expression of the language: it parses"""
+    import ref_examples
+    for kind, expr in ref_examples.examples(('match', 'let', 'field')):
+        O.case(('reference', kind, expr))
+        try:
+            ep.parse_expression(expr)
+        except ep.ExpressionError as e:
+            O.fail('C04.reference_example_is_not_an_expression', {'reference_example': expr, 'directive': kind}, 'parses', str(e)[:120], 'parse_expression on the example text from commands/reference.py')
+
+
 def main():
     replay_models()
     if O.witness:
@@ -366,6 +377,8 @@ def main():
             replay_models()
         elif 'filter' in w:
             filter_suite()
+        elif 'reference_example' in w:
+            reference_examples_suite()
         elif w['expr'] in MUST_FAIL:
             scope_suite()
         else:
@@ -375,6 +388,7 @@ def main():
                     O.fail('C04.table.witness', w, want, tally_eval(expr))
         O.finish()
     table_suite()
+    reference_examples_suite()
     diff_suite()
     bool_suite()
     scope_suite()
